@@ -336,6 +336,9 @@ func (s *Solver) Check(conds []*Term, wantModel bool) (SolverResult, Model) {
 	}
 	s.send("(pop 1)\n")
 	d := time.Since(start)
+	if os.Getenv("GOSYM_SLOW") != "" && d > 500*time.Millisecond {
+		fmt.Fprintf(os.Stderr, "SLOW %s (%s): last conjunct: %s\n", d, res, s.ts.Show(conds[len(conds)-1]))
+	}
 	s.Stats.Time += d
 	if d > s.Stats.MaxQuery {
 		s.Stats.MaxQuery = d
